@@ -146,7 +146,7 @@ class Frame:
 
 
 class State:
-    __slots__ = ('mem', 'epoch', 'headers', 'path', 'seq')
+    __slots__ = ('mem', 'epoch', 'headers', 'path', 'seq', 'unrolled')
 
     def __init__(self):
         self.mem = {}
@@ -154,6 +154,7 @@ class State:
         self.headers = frozenset()
         self.path = Path()
         self.seq = 0
+        self.unrolled = frozenset()
 
     def fork(self):
         s = State()
@@ -161,6 +162,7 @@ class State:
         s.epoch = self.epoch
         s.headers = self.headers
         s.seq = self.seq
+        s.unrolled = self.unrolled
         p = Path()
         p.events = list(self.path.events)
         p.conds = list(self.path.conds)
@@ -822,9 +824,60 @@ class Explorer:
             return self.loops, self.loop_havoc, self.mut_borrowed
         bid = fr.body.id
         if bid not in self._nested_loops:
-            loops = fr.body.loops() if self.expand_loops else {}
+            loops = fr.body.loops() if (self.expand_loops or array_loops_only(fr.body)) else {}
             self._nested_loops[bid] = (loops, {h: self._loop_writes(bl, fr.body) for h, bl in loops.items()}, self._mut_borrowed(fr.body))
         return self._nested_loops[bid]
+
+    def _unroll_header(self, st, fr, b, summary):
+        """True when the loop headed by b iterates a fixed array of at most four elements whose value is known: the iterator
+        local becomes an explicit cursor and the loop is run as straight-line code (no havoc, no cut at the back edge)"""
+        key = (fr.id, b)
+        if key in st.unrolled:
+            return True
+        if not self.inline:
+            return False
+        # the loop advances an array iterator (checked on its blocks); its local is the one of that type that still holds the
+        # freshly made iterator (the argument of next() is a temporary reborrow that does not exist yet at the header)
+        from facts import callee_name
+        if not any(fr.body.blocks[bb]['term']['k'] == 'call' and
+                   re.match(r'^<std::array::IntoIter<T, N> as std::iter::Iterator>::next$', callee_name(fr.body.blocks[bb]['term']))
+                   for bb in self._frame_loops(fr)[0].get(b, ())):
+            return False
+        cands = [i for i, l_ in enumerate(fr.body.locals) if l_['ty'].startswith('std::array::IntoIter<') and l_.get('name')]
+        for l in sorted(cands):
+            v = strip_upd(self.load(st, fr, (('loc', fr.id, l), ())))
+            x = v
+            while x[0] in ('call', 'pcall') and x[1].endswith('into_iter') and len(x[2]) == 1:
+                x = strip_upd(x[2][0])
+            ty = fr.body.locals[l]['ty'] if l < len(fr.body.locals) else ''
+            if x[0] == 'agg' and x[1] == 'array' and 1 <= len(x[4]) <= 4 and ty.startswith('std::array::IntoIter<') and v is not x:
+                self.store(st, (('loc', fr.id, l), ()), ('arrayiter', tuple(x[4]), 0))
+                st.unrolled = st.unrolled | {key}
+                st.path.events.append({'k': 'unrolled', 'bb': b, 'n': len(x[4]), 'depth': fr.evdepth, 'in': fr.body.id})
+                return True
+        return False
+
+    def array_next(self, st, fr, b, t):
+        """next() of an array iterator that _unroll_header turned into a cursor"""
+        from facts import callee_name
+        if t.get('target') is None or len(t['args']) != 1 or not re.match(r'^<std::array::IntoIter<T, N> as std::iter::Iterator>::next$', callee_name(t)):
+            return False
+        a0 = strip_upd(self.operand(st, fr, t['args'][0]))
+        if not (a0[0] == 'ref' and a0[1][0][0] == 'loc' and a0[1][1] == ()):
+            return False
+        cur = strip_upd(self.load(st, fr, a0[1]))
+        if cur[0] != 'arrayiter':
+            return False
+        elems, k_ = cur[1], cur[2]
+        if k_ < len(elems):
+            self.store(st, a0[1], ('arrayiter', elems, k_ + 1))
+            val = ('agg', 'adt', 'Some', ('0',), (elems[k_],), 'std::option::Option')
+        else:
+            val = ('agg', 'adt', 'None', (), (), 'std::option::Option')
+        st.path.events.append({'k': 'item', 'of': callee_name(t), 'alt': k_, 'kind': 'array-element' if k_ < len(elems) else 'array-end',
+                               'bb': b, 'line': t['line'], 'depth': fr.evdepth})
+        self.store(st, self.loc_of(st, fr, t['dest']), val)
+        return True
 
     def _havoc(self, st, h, fr=None, summary=None, mutb=None):
         fr = fr or self.top
@@ -1314,6 +1367,43 @@ class Explorer:
         self._apply(st, fr, b, t, cal, tuple(tup[4]), after)
         return True
 
+    def slice_contains(self, st, fr, b, t, cont):
+        """`[a, b].contains(&x)` on a known array of at most four elements is  a == x || b == x : one comparison per element, forked
+        like the short-circuit it stands for"""
+        from facts import callee_name
+        if not self.inline or t.get('target') is None or len(t['args']) != 2:
+            return False
+        if not re.search(r'slice::<impl \[T\]>::contains$', callee_name(t)):
+            return False
+        arr = strip_upd(self.operand(st, fr, t['args'][0]))
+        for _ in range(4):
+            if arr[0] == 'cast':
+                arr = strip_upd(arr[2])
+            elif arr[0] == 'ref' and arr[1][0][0] == 'loc':
+                arr = strip_upd(self.load(st, fr, arr[1]))
+            elif arr[0] == 'refval':
+                arr = strip_upd(arr[1])
+            else:
+                break
+        if not (arr[0] == 'agg' and arr[1] == 'array' and 1 <= len(arr[4]) <= 4):
+            return False
+        x = self.deref_ptr(st, fr, self.operand(st, fr, t['args'][1]))
+        dest, target = t['dest'], t['target']
+
+        def step(s_, i):
+            if i == len(arr[4]):
+                self.store(s_, self.loc_of(s_, fr, dest), ('c', False))
+                self._run(s_, target, fr, cont)
+                return
+            for (s2, val, _) in self._cases(s_, fr, b, t, simplify(('op', 'eq', arr[4][i], x)), 'bool'):
+                if val:
+                    self.store(s2, self.loc_of(s2, fr, dest), ('c', True))
+                    self._run(s2, target, fr, cont)
+                else:
+                    step(s2, i + 1)
+        step(st, 0)
+        return True
+
     def option_try(self, st, fr, t):
         """`opt?`: <Option<T> as Try>::branch(opt) -> the option value, else None"""
         from facts import callee_name
@@ -1368,8 +1458,9 @@ class Explorer:
             return None
         if (cb.j.get('impl') or {}).get('auto_derived') or cb.j.get('kind') == 'Closure':
             return None
-        if is_straight_line(cb) or (cb.loops() and not (self.expand_loops and fr is self.top and len(cb.loops()) <= 2)) \
-                or len(cb.blocks) > (250 if name in self.expand else 80) or t['target'] is None:
+        if is_straight_line(cb) or (cb.loops() and not (self.expand_loops and fr is self.top and len(cb.loops()) <= 2)
+                                    and not array_loops_only(cb)) \
+                or len(cb.blocks) > (250 if name in self.expand else 140) or t['target'] is None:
             return None
         f = fr
         while f is not None:
@@ -1384,7 +1475,9 @@ class Explorer:
         top = fr is self.top
         while True:
             f_loops, f_havoc, f_mutb = self._frame_loops(fr)
-            if b in f_loops:
+            if b in f_loops and self._unroll_header(st, fr, b, f_havoc[b]):
+                pass        # `for x in [a, b]`: a loop over a small fixed array is executed element by element, nothing is forgotten
+            elif b in f_loops:
                 hk = b if top else (short(body.id), b)          # header id: block number in the anchor, (helper, block) in a helper
                 hid = b if top else (fr.id, b)
                 if hid in st.headers:
@@ -1425,6 +1518,8 @@ class Explorer:
             elif k == 'assert':
                 self.record_assert(st, fr, b, t)
                 b = t['target']
+            elif k == 'call' and self.array_next(st, fr, b, t):
+                b = t['target']
             elif k == 'call' and self.filter_next(st, fr, b, t, cont):
                 return
             elif k == 'call' and self.chain_next(st, fr, b, t, cont):
@@ -1432,6 +1527,8 @@ class Explorer:
             elif k == 'call' and self.pairs_next(st, fr, b, t, cont):
                 return
             elif k == 'call' and self.fn_trait_call(st, fr, b, t, cont):
+                return
+            elif k == 'call' and self.slice_contains(st, fr, b, t, cont):
                 return
             elif k == 'call' and self.std_model(st, fr, b, t, cont):
                 return
@@ -1624,6 +1721,19 @@ def is_straight_line(body):
             b = t['target']
         else:
             return False
+
+
+def array_loops_only(body):
+    """every loop of the body advances a std::array::IntoIter (a `for` over a fixed-size array)"""
+    from facts import callee_name
+    loops = body.loops()
+    if not loops:
+        return False
+    for h, blocks in loops.items():
+        if not any(body.blocks[bb]['term']['k'] == 'call' and
+                   re.match(r'^<std::array::IntoIter<T, N> as std::iter::Iterator>::next$', callee_name(body.blocks[bb]['term'])) for bb in blocks):
+            return False
+    return True
 
 
 def consecutive_pairs_source(v):
